@@ -104,6 +104,16 @@ func gapCorpus() []*CaseSpec {
 		// notifications, folded in the order they are delivered, give the contents
 		{"hook/flush|add-nh", true, []Step{{Kind: "sethook"}, nh(1, 1, A), nhg(2, 1, 1, A), v4(3, "1.0.0.0/8", 1, A), with(Step{Kind: "flush", NIs: []string{ni}}, nh(4, 1, A)), nh(5, 1, D)}},
 		{"hook/flush|add-v4-held", true, []Step{{Kind: "sethook"}, nh(1, 1, A), nhg(2, 1, 1, A), v4(3, "1.0.0.0/8", 1, A), with(Step{Kind: "flush", NIs: []string{ni}}, nh(4, 2, A)), nh(5, 2, D)}},
+		// a Flush of two instances (hook registered) overlapped by the ADD of a prefix in the first
+		// instance that points at a group of the second: the flush is one step, so the ADD comes
+		// after all of it (the group is gone: the prefix is held), never between the instances
+		{"hook/flush-two-instances|add-v4-into-first-pointing-at-second", true, func() []Step {
+			inOther := func(st Step) Step { st.Op.NetworkInstance = other; return st }
+			y := v4(6, "1.0.0.0/8", 1, A)
+			y.Op.Entry.(*spb.AFTOperation_Ipv4).Ipv4.Ipv4Entry.NextHopGroupNetworkInstance = sv(other)
+			return []Step{addOther, {Kind: "sethook"}, nh(1, 5, A), inOther(nh(2, 1, A)), inOther(nhg(3, 1, 1, A)),
+				with(Step{Kind: "flush", NIs: []string{ni, other}}, y), inOther(nh(7, 1, A)), inOther(nhg(8, 1, 1, A))}
+		}()},
 		// DELETE of a next-hop overlapped by the ADD of a group listing it
 		{"del-nh|add-nhg", true, []Step{nh(1, 1, A), with(nh(2, 1, D), nhg(3, 1, 1, A)), nhg(4, 1, 1, D), nh(5, 1, D)}},
 	}
